@@ -410,6 +410,8 @@ func runC14(c *vk.Ctx) {
 			c.Sample(map[string]interface{}{"history_seed": seed, "fault_free_operations": len(refRes.Ops), "example_placement": cases[len(cases)/2]})
 		}
 	}
+	c14Reopen(c) // List / Load failing while an index holding data is re-opened
+	c.Require("reopen_faults_fired", 4)
 	c.Require("faults_fired", 40)
 	c.Require("fired_persist", 20)
 	c.Require("fired_load", 5)
